@@ -1,7 +1,7 @@
 (** C37 — Symbol ranges derived from ctags are always valid.
     Model: Model/Ctags.v (tagsToSections.Convert, overlaps, newLinesIndices; ShardBuilder.Add's section test).
     Offsets are nat (Go: uint32); the statements are about |content| < 2^32, which Builder guarantees (SizeMax). *)
-From ZV Require Import Lib.Base Model.Ctags Proofs.Ctags.
+From ZV Require Import Lib.Base Lib.Utf8 Model.Ctags Proofs.Ctags.
 
 (** For every content and every entry list: the derived sections are sorted and pairwise non-overlapping
     (every earlier section ends before every later one starts). *)
@@ -30,12 +30,81 @@ Proof.
 Qed.
 Print Assumptions C37_inside_and_covers_name.
 
-(** The shard builder accepts what Convert derives (sort, overlap test, past-the-end test), for every input:
-    entries that cannot be placed are dropped instead of failing the build. *)
+(** The shard builder accepts what Convert derives — ShardBuilder.Add's sort, overlap test, past-the-end test AND
+    newSearchableString's rune-boundary test over Go's UTF-8 decoding of the content — for every content (valid
+    UTF-8 or not) and every entry list whose names are valid UTF-8: entries that cannot be placed are dropped
+    instead of failing the build.
+    The hypothesis on the names is the domain of the property: ctags entries reach Convert from go-ctags, which
+    json.Unmarshal-s universal-ctags' output into `Name string`; encoding/json replaces invalid UTF-8 by U+FFFD, so
+    every name is valid UTF-8 (see NOTES.md). Without it acceptance fails: [C37_invalid_name_refuted]. *)
 Theorem C37_accepted_by_builder : forall content tags,
-  add_accepts (length content) (map fst (convert content tags)) = true.
+  Forall (fun t => valid_utf8 (e_name t) = true) tags ->
+  add_accepts content (map fst (convert content tags)) = true.
 Proof. exact convert_accepted. Qed.
 Print Assumptions C37_accepted_by_builder.
+
+(** Independently of the names' encoding (ALL entry lists): Add's sort / overlap / past-the-end tests pass. *)
+Theorem C37_ranges_accepted_for_all_names : forall content tags,
+  add_accepts_ranges (length content) (sort_secs (map fst (convert content tags))) = true.
+Proof. exact convert_ranges_accepted. Qed.
+Print Assumptions C37_ranges_accepted_for_all_names.
+
+(** The reason behind the rune-boundary clause — UTF-8 self-synchronisation against Go's decoder
+    (utf8.DecodeRune: a full valid rune or exactly one byte): a non-empty valid string occurring anywhere in ANY
+    byte string starts and ends where the decoding loop stands. *)
+Theorem C37_utf8_self_synchronisation : forall content name o,
+  valid_utf8 name = true -> name <> [] ->
+  firstn (length name) (skipn o content) = name ->
+  In o (rune_boundaries content) /\ In (o + length name) (rune_boundaries content).
+Proof.
+  intros content name o Hv Hne Hocc. rewrite !rune_boundaries_spec. now apply utf8_self_sync.
+Qed.
+Print Assumptions C37_utf8_self_synchronisation.
+
+(** every derived section starts and ends on a rune boundary of the content *)
+Theorem C37_sections_on_rune_boundaries : forall content tags s t,
+  Forall (fun t => valid_utf8 (e_name t) = true) tags ->
+  In (s, t) (convert content tags) ->
+  In (s_start s) (rune_boundaries content) /\ In (s_end s) (rune_boundaries content).
+Proof.
+  intros content tags s t Hv Hin. rewrite !rune_boundaries_spec.
+  pose proof (convert_rb content tags Hv) as H. rewrite Forall_forall in H. exact (H _ Hin).
+Qed.
+Print Assumptions C37_sections_on_rune_boundaries.
+
+(** Outside the domain the builder does reject: the name is the first byte of "é" (C3 A9); Convert derives the
+    section [0,1) and newSearchableString reports "no rune for section boundary at byte 1". (The harness replays
+    this class on the real code: model and implementation agree on the rejection.) *)
+Example C37_invalid_name_refuted :
+  exists content tags, add_accepts content (map fst (convert content tags)) = false /\
+                       add_accepts_ranges (length content) (sort_secs (map fst (convert content tags))) = true.
+Proof.
+  exists [195; 169]%N, [ {| e_line := 1; e_name := [195]%N; e_meta := 0 |} ].
+  vm_compute. split; reflexivity.
+Qed.
+
+(** Self-synchronisation needs the non-empty name: the empty string "occurs" at offset 1 of "é", which is not a
+    boundary. (Convert places an empty name at the line start, which is a boundary: Proofs.Ctags.line_start_RB.) *)
+Example C37_self_sync_empty_name_refuted :
+  exists content o, valid_utf8 [] = true /\ firstn 0 (skipn o content) = [] /\ ~ In o (rune_boundaries content).
+Proof.
+  exists [195; 169]%N, 1. split; [reflexivity|]. split; [reflexivity|]. vm_compute. intros [H|[H|[]]]; discriminate.
+Qed.
+
+(** Non-vacuity of the hypotheses: valid multi-byte names inside a content that is NOT valid UTF-8 (stray C3 and
+    FF bytes); three sections derived, all accepted, all boundaries found by the decoder. *)
+Example C37_accepted_nonvacuous :
+  let content := [195; 195;169; 32; 230;151;165; 255; 10; 240;159;152;128; 195;169]%N in  (* C3 "é 日" FF \n "😀é" *)
+  let tags := [ {| e_line := 1; e_name := [195;169]%N; e_meta := 0 |};
+                {| e_line := 1; e_name := [230;151;165]%N; e_meta := 1 |};
+                {| e_line := 2; e_name := [195;169]%N; e_meta := 2 |};
+                {| e_line := 2; e_name := []%N; e_meta := 3 |} ] in
+  valid_utf8 content = false /\
+  forallb (fun t => valid_utf8 (e_name t)) tags = true /\
+  map (fun p => (s_start (fst p), s_end (fst p))) (convert content tags) = [(1, 3); (4, 7); (9, 9); (13, 15)] /\
+  rune_boundaries content = [0; 1; 3; 4; 7; 8; 9; 13; 15] /\
+  add_accepts content (map fst (convert content tags)) = true.
+Proof. vm_compute. repeat split; reflexivity. Qed.
 
 (** Non-vacuity: a concrete input producing three sections, one dropped for overlap, one for a bad line. *)
 Example C37_nonvacuous :
